@@ -116,6 +116,17 @@ def run_case(i, rng, tier):
             break
     if not S.has_quantity(sp):
         sp = {"k": "Branch", "values": [sp, {"k": "Sum", "f": "x", "qf": "lambda"}]}
+    sweep = i % 8 == 3
+    if sweep:
+        # edge sweep: one binning of plain Counts with a freshly drawn decimal geometry; the batch walks through every
+        # edge / midpoint / centre +-3 ulp of that geometry, so every place where the two paths compute "the same"
+        # boundary with a different expression is compared on the values where the expressions can disagree
+        kind = ("Bin", "SparselyBin", "CentrallyBin", "IrregularlyBin", "Stack")[(i // 8) % 5]
+        sp = S.gen_container(rng, kind, 1, {"hostile": 1.0, "flavours": ("lambda", "str")}, child=lambda: {"k": "Count"})
+        for slot in ("under", "over", "nan"):
+            if slot in sp:
+                sp[slot] = {"k": "Count"}
+        label = "edge-sweep:" + kind
     rep = B.REPS[i % 3] if i % 4 else "dict"
     force = "str" if rep == "df" else None
     n = rng.randint(0, 12) if i % 9 else 0
@@ -124,6 +135,16 @@ def run_case(i, rng, tier):
     if fast:
         o["special_p"] = 0.0
     stream = S.gen_stream(rng, sp, n, o)
+    if sweep:
+        fld = sp["f"]
+        vals = [v for v in S.critical_values(sp).get(fld, ()) if v == v and abs(v) != float("inf")]
+        start = rng.randrange(max(1, len(vals)))
+        vals = (vals[start:] + vals[:start])[:48]
+        n = len(vals)
+        stream = S.gen_stream(rng, sp, n, {"special_p": 0.0, "nonpos_p": 0.0, **OPTS})
+        for (r, _), v in zip(stream, vals):
+            r[fld] = v
+        fast = rng.random() < 0.7
     recs = [r for r, _ in stream]
     if fast:
         for r in recs:
@@ -146,7 +167,31 @@ def run_case(i, rng, tier):
     if n >= 2 and rng.random() < 0.35:
         parts = sorted(set(rng.randint(0, n) for _ in range(rng.randint(1, 2))))
 
-    cols = B.columns(recs)
+    dt_seen = set()
+    # column types: float64, or integer / boolean columns for the selections and integer columns for the numbers
+    dtypes = {}
+    csel = rng.random()
+    if csel < 0.12:
+        for r in recs:
+            for f in S.SELF:
+                r[f] = rng.choice([0, 1, 1, 2, -1, 3])
+        dtypes.update({f: rng.choice([np.int64, np.int32, np.uint8]) if all(r[f] >= 0 for r in recs) else np.int64 for f in S.SELF})
+    elif csel < 0.2:
+        for r in recs:
+            for f in S.SELF:
+                r[f] = rng.random() < 0.6
+        dtypes.update({f: np.bool_ for f in S.SELF})
+    if rng.random() < 0.1:
+        crit = S.critical_values(sp)
+        for f in S.NUMF:
+            ints = [int(v) for v in crit.get(f, ()) if v == v and abs(v) < 1e9 and v == int(v)] + list(range(-2, 7))
+            for r in recs:
+                r[f] = rng.choice(ints)
+            dtypes[f] = np.int64
+    cols = B.columns(recs, dtypes)
+    for f, dt in dtypes.items():
+        counters_dt = "column_dtype:%s:%s" % ("selection" if f in S.SELF else "number", np.dtype(dt).name)
+        dt_seen.add(counters_dt)
     bat = B.Batch(cols, rep)
     warr = B.weights_array(ws) if wmode == "array" else None
     warr_saved = warr.copy() if warr is not None else None
@@ -163,7 +208,7 @@ def run_case(i, rng, tier):
     }
     failures = []
     counters = {"rep:" + rep: 1, "wmode:" + ("array" if wmode == "array" else "none" if wmode == "none" else "scalar"): 1}
-    sets = {"kinds": S.kinds_in(sp), "routing": R.routing_classes(sp, rstream)}
+    sets = {"kinds": S.kinds_in(sp), "routing": R.routing_classes(sp, rstream), "column_dtypes": dt_seen, "stratum": {label.split("<-")[0]}}
 
     # per-row twin
     hrow = S.build(sp, force)
@@ -287,4 +332,12 @@ def conclusive(agg):
     for c in ("rep:dict", "rep:recarray", "rep:df", "wmode:none", "wmode:scalar", "wmode:array", "split_comparisons"):
         if not agg.counters.get(c):
             out.append("never exercised: %s" % c)
+    st = agg.sets.get("stratum", set())
+    miss = [k for k in ("Bin", "SparselyBin", "CentrallyBin", "IrregularlyBin", "Stack") if "edge-sweep:" + k not in st]
+    if miss:
+        out.append("edge sweep never run for: %s" % ", ".join(miss))
+    dts = agg.sets.get("column_dtypes", set())
+    for need in ("column_dtype:selection:int64", "column_dtype:selection:bool", "column_dtype:number:int64"):
+        if need not in dts:
+            out.append("column type never exercised: %s" % need)
     return out
